@@ -36,9 +36,12 @@ def col_axiom(L):
 
 def _mean_lemmas(c):
     L = c.a.model_outputs.t
+    return [col_axiom(L)] + lemmas.ssum_const_axiom() + lemmas.ssum_congr_axiom()
+
+
+def _const_mean_lemmas(c):
     p = z3.Const('cm!p', PredT.sort())
-    return [col_axiom(L)] + lemmas.ssum_const_axiom() + lemmas.ssum_congr_axiom() + \
-        [sym.forall([p], lemmas.dict_ext(PredT, c.res.t, p))]
+    return [sym.forall([p], lemmas.dict_ext(PredT, c.res.t, p))]
 
 
 def all_equal(outs, p):
@@ -46,7 +49,7 @@ def all_equal(outs, p):
 
 
 fn('_get_mean_model_output', F + 'base.py', kind='function', params={'model_outputs': PredList}, pure=True, ret=PredT,
-   lemmas=_mean_lemmas,
+   lemmas=_mean_lemmas, clause_lemmas={'const_mean': _const_mean_lemmas},
    ensures={
        # label set = union of the label sets of the outputs
        'labels': lambda c: forall_key(lambda l: c.res.dom[l] == exists_int(
